@@ -138,7 +138,7 @@ fn real_main(args: &[String], scratch: &str) -> i32 {
                 "C05pair" => conc::replay_c05pair(&mut ctx, &args[2..]),
                 "BatchSched" => conc::replay_batch(&mut ctx, &args[2..]),
                 "OligoReuse" => conc::replay_oligo_reuse(&mut ctx, &args[2..]),
-                "C06" | "C06hist" | "C06long" | "C06size" | "C06header" | "C06many" | "C06huge" | "C06len" | "C07" | "C08" | "C08one" | "C08bin" | "C08direct" | "C08reuse" => files::replay(&mut ctx, &args[2..]),
+                "C06" | "C06hist" | "C06long" | "C06idb" | "C06size" | "C06header" | "C06many" | "C06huge" | "C06len" | "C07" | "C08" | "C08one" | "C08bin" | "C08direct" | "C08reuse" => files::replay(&mut ctx, &args[2..]),
                 other => {
                     eprintln!("unknown case kind {}", other);
                     return 2;
